@@ -62,6 +62,8 @@ def label_to_event(label):
         return dict(op="LogM", l=a[0], k="", a=a[1], b=a[2])
     if name == "SetAttrsR":
         return dict(op="SetAttrsR", l=0, k="", a=a[0], b=0)
+    if name == "DbgMode":
+        return dict(op="DbgMode", l=0, k="", a=a[0], b=0)
     if name == "LogA":
         return dict(op="LogA", l=a[0], k=a[1], a=a[2], b=0, mc=a[3], args=parse_tuple(a[4]))
     raise Undecided("unknown action label %r" % label)
@@ -81,7 +83,7 @@ def random_behaviours(c, rng, count, depth, max_loggers):
     """Seeded random histories over the same vocabulary, deeper and wider than the model bound."""
     res = []
     kinds = sorted(c["setter_args"].keys())
-    with_kinds = [k for k in kinds if k in ("JSONMode", "ColorMode", "UTCMode", "TimeFormat", "Level", "Attrs", "Attrs1", "SetKV",
+    with_kinds = [k for k in kinds if k in ("JSONMode", "ColorMode", "UTCMode", "TimeFormat", "Level", "Attrs", "Attrs1", "SetKV", "Attrs0",
                                             "Skip", "CtxKeys", "Writer", "ErrorWriter")]
     names = list(c["names"]) + [""]
     for _ in range(count):
@@ -134,13 +136,18 @@ def random_behaviours(c, rng, count, depth, max_loggers):
                 beh.append(dict(op="LogM", l=l, k="", a=rng.randint(1, len(c["ctx_vals"])), b=rng.randint(1, len(c["call_args"]))))
             elif op == "SetAttrsR":
                 beh.append(dict(op="SetAttrsR", l=0, k="", a=rng.randint(0, 1), b=0))
+            elif op == "DbgMode":
+                beh.append(dict(op="DbgMode", l=0, k="", a=rng.randint(0, 1), b=0))
             elif op == "LogA":
                 ep = rng.choice(sorted(c["eps"]))
                 r_ = 8 if "Println" in ep else rng.choice(sorted(c["log_sevs"]))
                 if ep.startswith("pkg") and r_ == 7:
                     r_ = 8          # no package-level function carries Off
                 n_ = rng.randint(0, c.get("rand_max_args", 8))
-                if rng.random() < 0.3:
+                if rng.random() < 0.1:
+                    beh.append(dict(op="LogA", l=l, k=ep, a=r_, b=0, mc=rng.choice(["empty", "blank"]),
+                                    args=[rng.choice(sorted(c["tokens"]))]))
+                elif rng.random() < 0.3:
                     mc_ = rng.choice(sorted(c["msg_classes"]))
                     if mc_ == "none" and "Println" not in ep:
                         mc_ = "empty"
